@@ -108,8 +108,10 @@ def r06_2(ctx, fx):
 
 
 def limit_cmp(ctx, fx, fn, rule, name, setf, limf, err_var, side_cut=(), ok_rx=r"^Ok"):
-    is_q = lambda f, o: guards.has_root(f, o, r"call:.*HashSet::len$") and any(
-        setf in f.recv(c) for c in f.calls(r"HashSet::len$") if c.dest[0] in _locals_of(f, o))
+    is_q = lambda f, o: guards.has_root(f, o, r"call:.*HashSet::len$") and (any(
+        setf in f.recv(c) for c in f.calls(r"HashSet::len$") if c.dest[0] in _locals_of(f, o)) or
+        # (the length bound to a local first and captured by a closure that was spelled out in place)
+        (guards.has_root(f, o, r"\." + setf + r"($|[^_a-z])") and not guards.has_root(f, o, r"\.(incoming|outgoing)_connections($|[^_a-z])".replace(setf.split("_")[0], "#"))))
     is_b = lambda f, o: guards.has_root(f, o, r"\." + limf)
     facts = guards.edge_facts(fn, is_q, is_b)
     cmpn = sorted({cn for _, _, _, cn in facts})
@@ -128,7 +130,7 @@ def limit_cmp(ctx, fx, fn, rule, name, setf, limf, err_var, side_cut=(), ok_rx=r
     good_lt = {(sw, lab) for sw, lab, rel, cn in facts if rel in guards.IMPLIES["<"]}
     none_cut = set()
     for sw in fn.discr_switches():
-        if limf in "".join(map(str, sw[1])):
+        if limf in "".join(map(str, sw[1])) or limf in fn.origin({"c": list(sw[1])}):
             for lab in fn.variant_edges(sw, "None"):
                 none_cut.add((sw[0], lab))
     r = fn.reach([fn.entry], cut=good_lt | none_cut | set(side_cut))
@@ -218,7 +220,12 @@ PSM = "transport::manager::peer_state::PeerState::"
 def _self_writes(fn):
     out = []
     for n, st in fn.assigns():
-        if st["lhs"][:2] == [1, "*"] and len(st["lhs"]) == 2:
+        # `*self = ..`, also through the `&mut self` of a helper method that was written out in place (a reborrow of `self`)
+        is_self = st["lhs"][:2] == [1, "*"]
+        if not is_self and len(st["lhs"]) == 2 and st["lhs"][1] == "*" and fn.rec.get("inlined"):
+            whole = [d for d in fn.defs().get(st["lhs"][0], []) if d[1] == "assign" and len(d[2]["lhs"]) == 1]
+            is_self = len(whole) == 1 and whole[0][2]["rv"]["r"] == "use" and fn.origin(whole[0][2]["rv"]["o"]).lstrip("&") in ("_1*", "_1")
+        if is_self and len(st["lhs"]) == 2:
             sh = fn.shape(st["rv"]["o"]) if st["rv"]["r"] == "use" else {st["rv"].get("var", "?")}
             out.append((n, sh))
     return out
